@@ -25,14 +25,14 @@ NA = {
 CHECKS = {
     "C11": dict(
         category="exploration",
-        text="Seeded search over write histories on the real IPSWriter (BytesIO and a real BufferedWriter over the simulated raw file, seeded buffer size, short raw writes, the k-th raw write failing, a second writer driven in between, refusals after which the caller goes on), each writer call under the deterministic step clock, judged on the bytes that reached the stream by an independent IPS reader/applier against the model 'blocks applied in write order'. Block contents are random, uniform or run-structured. The boundary families (every length around multiples of 65535 x both header settings x marker/limit addresses; A,B,A overlap sequences) are enumerated completely on every run; the rest is sampled, so a clean run is evidence, not proof.",
+        text="Seeded search over write histories on the real IPSWriter (BytesIO and a real BufferedWriter over the simulated raw file, seeded buffer size, short raw writes, the k-th raw write failing, a second writer driven in between, refusals after which the caller goes on), each writer call under the deterministic step clock, judged on the bytes that reached the stream by an independent IPS reader/applier against the model 'blocks applied in write order'. Block contents are random, uniform, run-structured, padding-like (0x00/0xFF tails) or carry the format's magic strings; lengths include powers of two and their multiples; blocks overlap, touch or lie a few bytes apart; a sample runs with caller-configured logging and in fresh interpreters started with -O. The boundary families (every length around multiples of 65535 x both header settings x marker/limit addresses; A,B,A overlap sequences; headers whose offset and length bytes spell the marker) are enumerated completely on every run; the rest is sampled, so a clean run is evidence, not proof.",
         design_ref="DESIGN.md 3.1 C11",
         note="Trusts sim/ipsref.py as the definition of a standard IPS patcher; streams are assumed to honour full writes (BytesIO/BufferedWriter); concurrent writers are out of scope.",
         technique="deterministic simulation: seeded write histories + raw-write fault injection, reference IPS patcher as oracle",
     ),
     "C12": dict(
         category="exploration",
-        text="Whole-program simulation of the CLI and file APIs inside a sandboxed file system (argv, exit status, logging and the raw file layer owned by the simulator; buffer sizes, short raw I/O, stale output files, path style, CR LF text files, sub-directories, argv order and extra flags perturbed by seed) over the option lattice format x mapping x copier-header x defines, compared with a pristine-fork in-memory twin; the symbol file is also checked against label-definition counts derived from the program text alone. Lattice points are covered systematically per program; programs are sampled; a sample of CLI runs is repeated as a true subprocess.",
+        text="Whole-program simulation of the CLI and file APIs inside a sandboxed file system (argv, exit status, logging and the raw file layer owned by the simulator; buffer sizes, short raw I/O, stale output files, path style, source and output file names, CR LF text files, sources longer than any read chunk full of multi-byte characters, sub-directories, argv order, option spellings and extra flags, the locale's default text encoding, warnings-as-errors perturbed by seed) over the option lattice format x mapping x copier-header x defines, compared with a pristine-fork in-memory twin; the symbol file is also checked against label-definition counts derived from the program text alone. Lattice points are covered systematically per program; programs are sampled; a sample of CLI runs is repeated as a true subprocess.",
         design_ref="DESIGN.md 3.1 C12",
         note="The in-memory API run in a pristine fork is the reference; low2 is judged against the low mapping through its mirror range; only programs whose twin succeeds are judged.",
         technique="deterministic simulation: sandboxed environment + benign I/O perturbation, differential against in-memory twin",
